@@ -34,6 +34,7 @@ import (
 	"testing"
 
 	"github.com/prometheus/client_golang/prometheus"
+	dto "github.com/prometheus/client_model/go"
 )
 
 type vMCase struct {
@@ -71,8 +72,9 @@ type vMRollExpect struct {
 }
 
 type vMOut struct {
-	mu sync.Mutex
-	w  *bufio.Writer
+	mu   sync.Mutex
+	w    *bufio.Writer
+	seen map[string]int // signature -> number of results; only the first of each is written
 }
 
 func (o *vMOut) put(v interface{}) {
@@ -84,6 +86,16 @@ func (o *vMOut) put(v interface{}) {
 }
 
 func (o *vMOut) report(c *vMCase, sig, detail string) {
+	o.mu.Lock()
+	if o.seen == nil {
+		o.seen = map[string]int{}
+	}
+	o.seen[sig]++
+	first := o.seen[sig] == 1
+	o.mu.Unlock()
+	if !first {
+		return
+	}
 	var cc interface{}
 	if c != nil {
 		json.Unmarshal(c.raw, &cc)
@@ -373,8 +385,9 @@ func vMRoll(c *vMCase, out *vMOut) {
 	checkProm("period2", e.Prom2)
 }
 
-// herd: G goroutines x K Incs of ONE real counter with concurrent Gather
-// readers.  started is incremented before Inc is invoked and completed after
+// herd: G goroutines x K Incs of ONE real counter with concurrent readers
+// (even readers scrape the whole registry with Gather, odd readers call the
+// metric's exported Write, which is what a scrape does per metric).  started is incremented before Inc is invoked and completed after
 // it returned, so for a read that loaded lo = completed before Gather and
 // hi = started after it, the Incs the read may count are exactly lo..hi.
 func vMHerd(c *vMCase, out *vMOut) {
@@ -431,14 +444,30 @@ func vMHerd(c *vMCase, out *vMOut) {
 			<-gate
 			var prev uint64
 			for len(reads[r]) < c.MaxRead && atomic.LoadInt32(&stop) == 0 {
-				lo := atomic.LoadUint64(&completed)
-				got, err := vMGather(pm)
-				hi := atomic.LoadUint64(&started)
-				if err != nil {
-					out.report(c, "C19/herd/gather-error", err.Error())
-					return
+				var obs float64
+				var lo, hi uint64
+				if r%2 == 0 {
+					// a whole scrape of the registry (wide bracket: a Gather lasts for hundreds of Incs)
+					lo = atomic.LoadUint64(&completed)
+					got, err := vMGather(pm)
+					hi = atomic.LoadUint64(&started)
+					if err != nil {
+						out.report(c, "C19/herd/gather-error", err.Error())
+						return
+					}
+					obs = got[name]
+				} else {
+					// what a scrape does for this one metric: prometheus.Metric.Write (tight bracket)
+					var m dto.Metric
+					lo = atomic.LoadUint64(&completed)
+					err := ctr.Write(&m)
+					hi = atomic.LoadUint64(&started)
+					if err != nil {
+						out.report(c, "C19/herd/write-error", err.Error())
+						return
+					}
+					obs = m.GetCounter().GetValue()
 				}
-				obs := got[name]
 				reads[r] = append(reads[r], read{lo, hi, prev, obs})
 				if obs >= 0 {
 					prev = uint64(obs)
@@ -564,5 +593,5 @@ func TestVerifC19Counters(t *testing.T) {
 			guard(nil, "law:metrics-log", func() { evaluations += vMLawLog(laws, round, out) })
 		}
 	}
-	out.put(map[string]interface{}{"summary": map[string]interface{}{"cases": evaluations, "nontrivial": nontrivial}})
+	out.put(map[string]interface{}{"summary": map[string]interface{}{"cases": evaluations, "nontrivial": nontrivial, "results_per_signature": out.seen}})
 }
